@@ -14,7 +14,8 @@ Definition cfg_has_panic (cfg : dcfg) : bool :=
   || existsb (fun x => existsb fscript_has_panic (snd x)) (d_sfilters cfg)
   || existsb (fun x => existsb fscript_has_panic (snd x)) (d_rfilters cfg)
   || existsb (fun x => existsb action_is_panic (snd x)) (d_handlers cfg)
-  || negb (match d_condpanic cfg with [] => true | _ => false end).
+  || negb (match d_condpanic cfg with [] => true | _ => false end)
+  || existsb (fun x => existsb action_is_panic (snd (snd x))) (d_plain cfg).
 
 (* C06: the order of events.  Filters run container, service, route, each in
    registration order; one that does not pass on stops everything after it;
